@@ -16,7 +16,10 @@ import (
 //     interleaving;
 //   - result: every task result equals the same query run alone beforehand;
 //   - snapshot: the shared roots are structurally unchanged at every switch.
-type C05 struct{ base }
+type C05 struct {
+	base
+	rounds int
+}
 
 func init() { registry["C05"] = func() h.Oracle { return &C05{} } }
 
@@ -96,11 +99,29 @@ func (o *C05) Round(x *h.Exec, ev *h.Event) {
 	if r == nil || len(r.Tasks) == 0 {
 		return
 	}
-	// solo baselines, computed before any task exists
+	// solo baselines, computed before any task exists. Every other round they
+	// are computed on a twin store in the same state (own schema objects, own
+	// decoder context): what a request does to shared state - say, on the first
+	// failing hook - then happens inside the concurrent round, where the race
+	// detector and the result comparison can see it, not during the baseline.
+	// The queries still run here once first (on the round's own store in the
+	// other rounds) so that lazy initialisation inside dependencies is over.
 	solo := make([][]string, len(r.Tasks))
+	base := x.S
+	if o.rounds%2 == 1 {
+		base = x.Twin()
+		x.Cov.Probe("solo_baseline_on_twin_store")
+	}
+	o.rounds++
 	for i, qs := range r.Tasks {
 		for _, q := range qs {
-			res := x.Run(q)
+			var res *h.Result
+			if base == x.S {
+				res = x.Run(q)
+			} else {
+				res = base.Exec(q)
+				x.Cov.Evaluations++
+			}
 			solo[i] = append(solo[i], res.Canon())
 		}
 	}
